@@ -46,6 +46,9 @@ pub static PARK_RELEASE: std::sync::atomic::AtomicBool = std::sync::atomic::Atom
 /// Only the first such call after this was set to true is held (so that a second evaluation that wrongly reaches the same
 /// call runs on and shows its wrong result instead of waiting as well).
 pub static PARK_ONCE: std::sync::atomic::AtomicBool = std::sync::atomic::AtomicBool::new(false);
+/// Number of calls that have entered the held state so far (a scenario waits for this, not for the log, before it goes on:
+/// the log entry is written before the call decides whether it is the one that is held).
+pub static PARKED: std::sync::atomic::AtomicUsize = std::sync::atomic::AtomicUsize::new(0);
 
 pub struct Probe {
     pub name: &'static str,
@@ -74,6 +77,7 @@ impl UserFunction for Probe {
                 tokio::task::yield_now().await;
             }
             if key.1.contains("\"park\"") && PARK_ONCE.swap(false, std::sync::atomic::Ordering::SeqCst) {
+                    PARKED.fetch_add(1, std::sync::atomic::Ordering::SeqCst);
                 while !PARK_RELEASE.load(std::sync::atomic::Ordering::SeqCst) {
                     tokio::task::yield_now().await;
                 }
